@@ -36,6 +36,9 @@ type half struct {
 	// fault injection: reader gets err once nread reaches failAt (if failAt>=0)
 	failAt  int64
 	failErr error
+	// failOnce: the fault is transient (a read deadline that expired): reported once, then
+	// the stream goes on supplying bytes
+	failOnce bool
 	// maxRead > 0 limits every Read to at most that many bytes (fragmentation)
 	maxRead int
 }
@@ -61,7 +64,11 @@ func (h *half) read(p []byte) (int, error) {
 			return 0, net.ErrClosed
 		}
 		if h.failAt >= 0 && h.nread >= h.failAt {
-			return 0, h.failErr
+			err := h.failErr
+			if h.failOnce {
+				h.failAt = -1
+			}
+			return 0, err
 		}
 		if len(h.buf) > 0 {
 			n := len(p)
@@ -220,6 +227,18 @@ func (c *Conn) FailReadsAt(n int64, err error) {
 	c.r.cond.Broadcast()
 	c.r.mu.Unlock()
 }
+
+// FailReadsOnceAt makes ONE read fail with err once n bytes have been consumed; later reads
+// continue with the remaining bytes (an expired read deadline that was then lifted).
+func (c *Conn) FailReadsOnceAt(n int64, err error) {
+	c.r.mu.Lock()
+	c.r.failAt, c.r.failErr, c.r.failOnce = n, err, true
+	c.r.cond.Broadcast()
+	c.r.mu.Unlock()
+}
+
+// ErrTimeout is a net.Error whose Timeout() is true.
+var ErrTimeout error = timeoutError{}
 
 // FragmentReads limits every Read of this end to at most n bytes.
 func (c *Conn) FragmentReads(n int) {
